@@ -88,6 +88,10 @@ fn world(c: &IncCase, tag: &str, absdir: &Path) -> World {
         _ => IncStyle::ViaMacro("INC".into()),
     };
     let mut top = vec![def("P", "p1")];
+    if c.a_kind % 2 == 1 {
+        // multi-byte characters ahead of the include: byte and character offsets differ from here on
+        top.push(Item::Cmt("/* généré à 25°C */".into()));
+    }
     if c.style == 2 {
         top.push(def("INC", &format!("\"{}\"", aname_in_source)));
     }
